@@ -223,6 +223,106 @@ theorem skipFrame_eq_tick (s dt m rest) (L : List Ev) (I : List (Nat × CanMsg))
   · simp only [hto, Bool.false_eq_true, ↓reduceIte]
 
 
+theorem rxLoop_accepted (doTx : Bool) (s : State) (st : Stats) (dt : Nat) (m : CanMsg)
+    (rest : List (Nat × CanMsg)) (h : s.addr.rx.isForMe m = true) :
+    rxLoop doTx s st ((dt, m) :: rest) =
+      (let r := (skipFrame s dt m rest).processRx m
+       let st1 : Stats := { st with received := st.received + 1, processed := st.processed + 1 }
+       let st' : Stats := if r.2.2 then { st1 with frames := st1.frames + 1 } else st1
+       if r.2.1 then (r.1, st', false)
+       else if doTx && r.1.txTimeDriven then (r.1, st', true)
+       else rxLoop doTx r.1 st' rest) := by
+  have hf : (skipFrame s dt m rest).addr.rx.isForMe m = true := by
+    rw [skipFrame_addr]; exact h
+  rw [rxLoop]
+  unfold skipFrame at hf ⊢
+  simp only [emit] at hf ⊢
+  simp only [hf, if_true]
+
+/-- two states agree on every field except the trace `log` and the bus-side `inbox` -/
+def Agree (a b : State) : Prop :=
+  ({ a with log := [], inbox := [] } : State) = { b with log := [], inbox := [] }
+
+theorem Agree.refl (a : State) : Agree a a := rfl
+
+theorem Agree.trans {a b c : State} (h1 : Agree a b) (h2 : Agree b c) : Agree a c := by
+  unfold Agree at *; rw [h1, h2]
+
+theorem agree_of_skipFrame_tick (s : State) (dt m rest) : Agree (skipFrame s dt m rest) (tick s dt) :=
+  skipFrame_eq_tick s dt m rest [] []
+
+theorem Agree.tick {a b : State} (h : Agree a b) (dt : Nat) : Agree (tick a dt) (tick b dt) := by
+  unfold Agree at h
+  simp only [State.mk.injEq] at h
+  obtain ⟨h1, h2, h3, h4, h5, h6, h7, h8, h9, h10, h11, h12, h13, h14, h15, h16, h17, h18, h19, h20,
+    h21, h22, h23, h24, h25, h26⟩ := h
+  unfold Agree C09.tick checkTimeoutsRx
+  simp only [State.error, emit, stopReceiving, h3, h10]
+  by_cases hto : b.timerCf.timedOut (b.now + dt) = true
+  · simp only [hto, ↓reduceIte, State.mk.injEq]
+    simp [*]
+  · simp only [hto, Bool.false_eq_true, ↓reduceIte, State.mk.injEq]
+    simp [*]
+
+/-- waiting with nothing on the bus: the clock advances by each delay in turn and
+    `_check_timeouts_rx` runs each time. -/
+def idleFor (s : State) : List Nat → State
+  | [] => s
+  | dt :: dts => idleFor (C09.tick s dt) dts
+
+theorem tick_zero (s : State) : C09.tick s 0 = s.checkTimeoutsRx := rfl
+
+theorem Agree.idleFor {a b : State} (h : Agree a b) (dts : List Nat) :
+    Agree (idleFor a dts) (idleFor b dts) := by
+  induction dts generalizing a b with
+  | nil => exact h
+  | cons dt dts ih => exact ih (h.tick dt)
+
+theorem Agree.checkTimeoutsRx {a b : State} (h : Agree a b) :
+    Agree a.checkTimeoutsRx b.checkTimeoutsRx := by
+  rw [← tick_zero, ← tick_zero]; exact h.tick 0
+
+theorem skipFrame_txTimeDriven (s : State) (dt m rest) :
+    (skipFrame s dt m rest).txTimeDriven = s.txTimeDriven := by
+  have h : (skipFrame s dt m rest).txState = s.txState := by
+    unfold skipFrame State.checkTimeoutsRx
+    simp only [emit, State.error, stopReceiving]
+    by_cases hto : s.timerCf.timedOut (s.now + dt) = true
+    · simp only [hto, ↓reduceIte]
+    · simp only [hto, Bool.false_eq_true, ↓reduceIte]
+  unfold txTimeDriven
+  rw [h]
+
+theorem rxLoop_all_ignored (doTx : Bool) (inbox : List (Nat × CanMsg)) : ∀ (s : State) (st : Stats),
+    (∀ x ∈ inbox, s.addr.rx.isForMe x.2 = false) → (doTx && s.txTimeDriven) = false →
+    Agree (rxLoop doTx s st inbox).1 (idleFor s (inbox.map (·.1))).checkTimeoutsRx ∧
+    (rxLoop doTx s st inbox).2 = ({ st with received := st.received + inbox.length }, false) := by
+  induction inbox with
+  | nil =>
+    intro s st _ _
+    rw [rxLoop]
+    refine ⟨?_, by simp⟩
+    simp only [List.map_nil, idleFor]
+    apply Agree.checkTimeoutsRx
+    rfl
+  | cons x rest ih =>
+    intro s st hall htd
+    obtain ⟨dt, m⟩ := x
+    have hm : s.addr.rx.isForMe m = false := hall (dt, m) (by simp)
+    rw [rxLoop_ignored doTx s st dt m rest hm]
+    have htd' : (doTx && (skipFrame s dt m rest).txTimeDriven) = false := by
+      rw [skipFrame_txTimeDriven]; exact htd
+    rw [htd']
+    simp only [Bool.false_eq_true, if_false]
+    have hall' : ∀ x ∈ rest, (skipFrame s dt m rest).addr.rx.isForMe x.2 = false := by
+      intro x hx; rw [skipFrame_addr]; exact hall x (by simp [hx])
+    obtain ⟨h1, h2⟩ := ih (skipFrame s dt m rest) { st with received := st.received + 1 } hall' htd'
+    refine ⟨?_, ?_⟩
+    · simp only [List.map_cons, idleFor]
+      exact Agree.trans h1 (((agree_of_skipFrame_tick s dt m rest).idleFor _).checkTimeoutsRx)
+    · rw [h2]; simp only [List.length_cons, Prod.mk.injEq, and_true]
+      congr 1; omega
+
 /-! ### F. every frame handed to the driver carries the documented identifier and prefix -/
 
 theorem makeTxMsg_spec (c : Cfg) (a : Addr) (arbId : Nat) (d : Bytes) (msg : CanMsg)
@@ -347,53 +447,53 @@ theorem any_of_startTat (h : Half) (s : State) (r : Req) (msg : CanMsg)
 
 /-- relation between the state before and after a step of the transmit side: same address, and
     a standby message is the old one or a documented frame. -/
-def Step (s s' : State) : Prop :=
+def Core (s s' : State) : Prop :=
   s'.addr = s.addr ∧
   ∀ msg, s'.standby = some msg → s.standby = some msg ∨ EmittedFrameOkAny s.addr.tx msg
 
-theorem Step.refl (s : State) : Step s s := ⟨rfl, fun _ h => Or.inl h⟩
+theorem Core.refl (s : State) : Core s s := ⟨rfl, fun _ h => Or.inl h⟩
 
-theorem Step.trans {a b c : State} (h1 : Step a b) (h2 : Step b c) : Step a c := by
-  unfold Step at *; grind
+theorem Core.trans {a b c : State} (h1 : Core a b) (h2 : Core b c) : Core a c := by
+  unfold Core at *; grind
 
-theorem Step.of_eq {s s' : State} (ha : s'.addr = s.addr)
-    (hs : s'.standby = s.standby ∨ s'.standby = none) : Step s s' := by
-  unfold Step; grind
+theorem Core.of_eq {s s' : State} (ha : s'.addr = s.addr)
+    (hs : s'.standby = s.standby ∨ s'.standby = none) : Core s s' := by
+  unfold Core; grind
 
 theorem readTxQueue_spec (allowed : Nat) (q : List Req) : ∀ (s s' : State) (out : Option CanMsg),
     s.readTxQueue allowed q = (s', out) →
-    Step s s' ∧ ∀ msg, out = some msg → EmittedFrameOkAny s.addr.tx msg := by
+    Core s s' ∧ ∀ msg, out = some msg → EmittedFrameOkAny s.addr.tx msg := by
   induction q with
   | nil =>
     intro s s' out h
     simp only [readTxQueue, Prod.mk.injEq] at h
     obtain ⟨rfl, rfl⟩ := h
-    exact ⟨Step.of_eq rfl (Or.inl rfl), by simp⟩
+    exact ⟨Core.of_eq rfl (Or.inl rfl), by simp⟩
   | cons r rest ih =>
     intro s s' out h
     rw [readTxQueue] at h
     simp only [] at h
     split at h
     · obtain ⟨hs, ho⟩ := ih _ _ _ h
-      exact ⟨Step.trans (Step.of_eq rfl (Or.inl rfl)) hs, ho⟩
+      exact ⟨Core.trans (Core.of_eq rfl (Or.inl rfl)) hs, ho⟩
     · obtain ⟨ha, hs, ho⟩ := startTx_spec _ _ _ _ _ h
       exact ⟨⟨ha, fun msg hm => (hs msg hm).imp id (any_of_startTat _ _ _ _)⟩,
         fun msg hm => any_of_startTat _ _ _ _ (ho msg hm)⟩
 
-theorem handleFc_step (s : State) (fc : FcFrame) : Step s (s.handleFc fc) := by
-  apply Step.of_eq
+theorem handleFc_core (s : State) (fc : FcFrame) : Core s (s.handleFc fc) := by
+  apply Core.of_eq
   · unfold handleFc; grind [State.error, emit, stopSending_addr, startRxFcTimer]
   · unfold handleFc; grind [State.error, emit, stopSending_standby, startRxFcTimer]
 
 theorem transmitCf_spec (s : State) (allowed : Nat) (s' : State) (out : Option CanMsg) (imm : Bool)
     (h : s.transmitCf allowed = (s', out, imm)) :
-    Step s s' ∧ ∀ msg, out = some msg → EmittedFrameOk s.addr.tx .physical msg := by
+    Core s s' ∧ ∀ msg, out = some msg → EmittedFrameOk s.addr.tx .physical msg := by
   unfold transmitCf at h
   split at h
   · simp only [Prod.mk.injEq] at h; obtain ⟨rfl, rfl, rfl⟩ := h
-    exact ⟨Step.of_eq rfl (Or.inl rfl), by simp⟩
+    exact ⟨Core.of_eq rfl (Or.inl rfl), by simp⟩
   · simp only [Prod.mk.injEq] at h; obtain ⟨rfl, rfl, rfl⟩ := h
-    exact ⟨Step.of_eq rfl (Or.inl rfl), by simp⟩
+    exact ⟨Core.of_eq rfl (Or.inl rfl), by simp⟩
   · rename_i rbs r hrbs hact
     split at h
     · extract_lets dataLen payloadLen at h
@@ -406,7 +506,7 @@ theorem transmitCf_spec (s : State) (allowed : Nat) (s' : State) (out : Option C
         cases res with
         | none =>
           simp only [Prod.mk.injEq] at h; obtain ⟨rfl, rfl, rfl⟩ := h
-          exact ⟨Step.of_eq h1 (Or.inl h2), by simp⟩
+          exact ⟨Core.of_eq h1 (Or.inl h2), by simp⟩
         | some payload =>
           by_cases hl : payload.length > 0
           · cases hmk : makeTxMsg s1.cfg s1.addr (s1.addr.tx.txId .physical)
@@ -414,20 +514,114 @@ theorem transmitCf_spec (s : State) (allowed : Nat) (s' : State) (out : Option C
             | none =>
               simp only [hl, hmk, if_true, Prod.mk.injEq] at h
               obtain ⟨rfl, rfl, rfl⟩ := h
-              exact ⟨Step.of_eq h1 (Or.inl h2), by simp⟩
+              exact ⟨Core.of_eq h1 (Or.inl h2), by simp⟩
             | some msg =>
               simp only [hl, hmk, if_true] at h
               rw [h1] at hmk
               have hok := makeTxMsg_ok _ _ _ _ _ hmk (by simp [List.append_assoc])
-              refine ⟨Step.of_eq ?_ ?_, ?_⟩ <;>
+              refine ⟨Core.of_eq ?_ ?_, ?_⟩ <;>
                 grind [State.error, emit, stopSending_standby, stopSending_addr, startRxFcTimer]
           · simp only [hl, if_false] at h
-            refine ⟨Step.of_eq ?_ ?_, ?_⟩ <;>
+            refine ⟨Core.of_eq ?_ ?_, ?_⟩ <;>
               grind [State.error, emit, stopSending_standby, stopSending_addr, startRxFcTimer]
       · simp only [Prod.mk.injEq] at h; obtain ⟨rfl, rfl, rfl⟩ := h
-        exact ⟨Step.of_eq rfl (Or.inl rfl), by simp⟩
+        exact ⟨Core.of_eq rfl (Or.inl rfl), by simp⟩
     · simp only [Prod.mk.injEq] at h; obtain ⟨rfl, rfl, rfl⟩ := h
-      exact ⟨Step.of_eq rfl (Or.inl rfl), by simp⟩
+      exact ⟨Core.of_eq rfl (Or.inl rfl), by simp⟩
+
+/-- no new `.tx` trace entry between two states -/
+def NoNewTx (s s' : State) : Prop := ∀ t m, Ev.tx t m ∈ s'.log → Ev.tx t m ∈ s.log
+
+theorem NoNewTx.refl (s : State) : NoNewTx s s := fun _ _ h => h
+theorem NoNewTx.trans {a b c : State} (h1 : NoNewTx a b) (h2 : NoNewTx b c) : NoNewTx a c :=
+  fun t m h => h1 t m (h2 t m h)
+
+theorem processRx_noTx (s : State) (m : CanMsg) : NoNewTx s (s.processRx m).1 := by
+  intro t m' h
+  unfold processRx startReception at h
+  grind [deliver, stopReceiving, State.error, emit, requestFc, startRxCfTimer]
+
+theorem stopSending_noTx (s : State) (b : Bool) : NoNewTx s (s.stopSending b) := by
+  intro t m' h
+  unfold stopSending at h
+  grind [emit]
+
+theorem consumeActive_noTx (s : State) (r n e) : NoNewTx s (s.consumeActive r n e).1 := by
+  intro t m' h
+  unfold consumeActive at h
+  grind [emit]
+
+theorem startTx_noTx (s : State) (r : Req) (allowed : Nat) : NoNewTx s (s.startTx r allowed).1 := by
+  intro t m' h
+  unfold startTx at h
+  have h1 := consumeActive_noTx
+  have h2 := stopSending_noTx
+  unfold NoNewTx at h1 h2
+  grind [State.error, emit, raise, startRxFcTimer]
+
+theorem readTxQueue_noTx (allowed : Nat) (q : List Req) : ∀ s : State,
+    NoNewTx s (s.readTxQueue allowed q).1 := by
+  induction q with
+  | nil => intro s t m h; simpa [readTxQueue] using h
+  | cons r rest ih =>
+    intro s
+    rw [readTxQueue]
+    simp only []
+    split
+    · refine NoNewTx.trans ?_ (ih _)
+      intro t m h
+      simpa [emit] using h
+    · refine NoNewTx.trans ?_ (startTx_noTx _ _ _)
+      exact fun _ _ h => h
+
+theorem handleFc_noTx (s : State) (fc : FcFrame) : NoNewTx s (s.handleFc fc) := by
+  intro t m' h
+  unfold handleFc at h
+  have h2 := stopSending_noTx
+  unfold NoNewTx at h2
+  grind [State.error, emit, startRxFcTimer]
+
+theorem transmitCf_noTx (s : State) (allowed : Nat) : NoNewTx s (s.transmitCf allowed).1 := by
+  intro t m' h
+  unfold transmitCf at h
+  have h1 := consumeActive_noTx
+  have h2 := stopSending_noTx
+  unfold NoNewTx at h1 h2
+  grind [State.error, emit, raise, startRxFcTimer]
+
+/-- relation between the state before and after a step of the transmit side: same address,
+    a standby message is the old one or a documented frame, no `.tx` trace entry is added. -/
+def Step (s s' : State) : Prop := Core s s' ∧ NoNewTx s s'
+
+theorem Step.refl (s : State) : Step s s := ⟨Core.refl s, NoNewTx.refl s⟩
+
+theorem Step.trans {a b c : State} (h1 : Step a b) (h2 : Step b c) : Step a c :=
+  ⟨Core.trans h1.1 h2.1, NoNewTx.trans h1.2 h2.2⟩
+
+theorem Step.of_eq {s s' : State} (ha : s'.addr = s.addr)
+    (hs : s'.standby = s.standby ∨ s'.standby = none) (hl : NoNewTx s s') : Step s s' :=
+  ⟨Core.of_eq ha hs, hl⟩
+
+theorem Step.addr {s s' : State} (h : Step s s') : s'.addr = s.addr := h.1.1
+
+theorem readTxQueue_step (allowed : Nat) (q : List Req) (s s' : State) (out : Option CanMsg)
+    (h : s.readTxQueue allowed q = (s', out)) :
+    Step s s' ∧ ∀ msg, out = some msg → EmittedFrameOkAny s.addr.tx msg := by
+  obtain ⟨h1, h2⟩ := readTxQueue_spec allowed q s s' out h
+  have h3 := readTxQueue_noTx allowed q s
+  rw [h] at h3
+  exact ⟨⟨h1, h3⟩, h2⟩
+
+theorem handleFc_step (s : State) (fc : FcFrame) : Step s (s.handleFc fc) :=
+  ⟨handleFc_core s fc, handleFc_noTx s fc⟩
+
+theorem transmitCf_step (s : State) (allowed : Nat) (s' : State) (out : Option CanMsg) (imm : Bool)
+    (h : s.transmitCf allowed = (s', out, imm)) :
+    Step s s' ∧ ∀ msg, out = some msg → EmittedFrameOk s.addr.tx .physical msg := by
+  obtain ⟨h1, h2⟩ := transmitCf_spec s allowed s' out imm h
+  have h3 := transmitCf_noTx s allowed
+  rw [h] at h3
+  exact ⟨⟨h1, h3⟩, h2⟩
 
 theorem finish_spec (s s6 s' : State) (out6 out : Option CanMsg) (imm6 imm : Bool)
     (hs : Step s s6)
@@ -445,7 +639,7 @@ theorem finish_spec (s s6 s' : State) (out6 out : Option CanMsg) (imm6 imm : Boo
     | some m6 =>
       simp only [Prod.mk.injEq] at h
       obtain ⟨rfl, rfl, rfl⟩ := h
-      exact ⟨Step.trans hs (Step.of_eq rfl (Or.inl rfl)), ho⟩
+      exact ⟨Step.trans hs (Step.of_eq rfl (Or.inl rfl) (fun _ _ h => h)), ho⟩
     | none =>
       simp only [Prod.mk.injEq] at h
       obtain ⟨rfl, rfl, rfl⟩ := h
@@ -456,31 +650,35 @@ theorem processTx_spec (s s' : State) (out : Option CanMsg) (imm : Bool)
     Step s s' ∧ ∀ msg, out = some msg → s.standby = some msg ∨ EmittedFrameOkAny s.addr.tx msg := by
   unfold processTx at h
   extract_lets allowed s0 pend at h
-  have hp : (pend.1.addr = s.addr ∧ pend.1.standby = s.standby) ∧
+  have hp : (pend.1.addr = s.addr ∧ pend.1.standby = s.standby ∧ pend.1.log = s.log) ∧
       ∀ msg, pend.2 = some (some msg) → EmittedFrameOk s.addr.tx .physical msg := by
+    clear h
     have key := makeFlowControl_ok
     simp only [pend, s0]
     grind [raise, startRxCfTimer]
   clear_value pend
   obtain ⟨s1, o⟩ := pend
-  obtain ⟨⟨hp1, hp2⟩, hp3⟩ := hp
-  simp only [] at hp1 hp2 hp3
-  have hs1 : Step s s1 := Step.of_eq hp1 (Or.inl hp2)
+  obtain ⟨⟨hp1, hp2, hp4⟩, hp3⟩ := hp
+  simp only [] at hp1 hp2 hp3 hp4
+  have hs1 : Step s s1 := Step.of_eq hp1 (Or.inl hp2) (by intro t m h; rw [← hp4]; exact h)
   rcases o with _ | _ | msg0
   · -- no pending flow control: the FSM runs
     simp -zeta only [] at h
     extract_lets fc s2 at h
     split at h
     · rename_i s3 hq
-      have hk : s3.addr = s1.addr ∧ s3.standby = none := by
+      have hn := stopSending_noTx
+      unfold NoNewTx at hn
+      have hk : s3.addr = s1.addr ∧ s3.standby = none ∧ NoNewTx s1 s3 := by
+        unfold NoNewTx
         grind [State.error, emit, stopSending_addr, stopSending_standby]
       simp only [Prod.mk.injEq] at h
       obtain ⟨rfl, rfl, rfl⟩ := h
-      exact ⟨Step.trans hs1 (Step.of_eq hk.1 (Or.inr hk.2)), by simp⟩
+      exact ⟨Step.trans hs1 (Step.of_eq hk.1 (Or.inr hk.2.1) hk.2.2), by simp⟩
     · rename_i s3 hq
       have hk : Step s1 s3 := by
         have := handleFc_step s2
-        have e2 : Step s1 s2 := Step.of_eq rfl (Or.inl rfl)
+        have e2 : Step s1 s2 := Step.of_eq rfl (Or.inl rfl) (fun _ _ h => h)
         simp only [fc] at hq
         split at hq
         · split at hq
@@ -493,21 +691,28 @@ theorem processTx_spec (s s' : State) (out : Option CanMsg) (imm : Bool)
           exact e2
       clear hq
       extract_lets +onlyGivenNames s4 at h
+      have hn := stopSending_noTx
+      unfold NoNewTx at hn
       have hk4 : Step s3 s4 := by
-        apply Step.of_eq <;> simp only [s4] <;> split <;>
-          simp [State.error, emit, stopSending_addr, stopSending_standby]
+        apply Step.of_eq
+        · simp only [s4]; split <;> simp [State.error, emit, stopSending_addr]
+        · simp only [s4]; split <;> simp [State.error, emit, stopSending_standby]
+        · unfold NoNewTx; simp only [s4]; grind [State.error, emit]
       split at h
       · simp only [Prod.mk.injEq] at h
         obtain ⟨rfl, rfl, rfl⟩ := h
-        exact ⟨Step.trans hs1 (Step.trans hk (Step.trans hk4 (Step.of_eq rfl (Or.inl rfl)))), by simp⟩
+        exact ⟨Step.trans hs1 (Step.trans hk (Step.trans hk4 (Step.of_eq rfl (Or.inl rfl) (fun _ _ h => h)))), by simp⟩
       · extract_lets +onlyGivenNames s5 at h
         have hk5 : Step s4 s5 := by
-          apply Step.of_eq <;> simp only [s5] <;> grind [stopSending_addr, stopSending_standby]
+          apply Step.of_eq
+          · simp only [s5]; grind [stopSending_addr]
+          · simp only [s5]; grind [stopSending_standby]
+          · unfold NoNewTx; simp only [s5]; grind
         have h05 : Step s s5 := Step.trans hs1 (Step.trans hk (Step.trans hk4 hk5))
         cases hst : s5.txState
         · -- idle
           simp only [hst] at h
-          have hq := readTxQueue_spec allowed s5.txQueue s5
+          have hq := readTxQueue_step allowed s5.txQueue s5
           generalize s5.readTxQueue allowed s5.txQueue = rq at h hq
           obtain ⟨s6, out6⟩ := rq
           obtain ⟨hq1, hq2⟩ := hq s6 out6 rfl
@@ -515,14 +720,14 @@ theorem processTx_spec (s s' : State) (out : Option CanMsg) (imm : Bool)
           refine finish_spec s s6 s' out6 out false imm (Step.trans h05 hq1) h ?_
           intro msg hm
           right
-          rw [← h05.1]
+          rw [← h05.addr]
           exact hq2 msg hm
         · -- waitFc
           simp only [hst] at h
           exact finish_spec s s5 s' none out false imm h05 h (by simp)
         · -- transmitCf
           simp only [hst] at h
-          have hq := transmitCf_spec s5 allowed
+          have hq := transmitCf_step s5 allowed
           generalize s5.transmitCf allowed = rq at h hq
           obtain ⟨s6, out6, imm6⟩ := rq
           obtain ⟨hq1, hq2⟩ := hq s6 out6 imm6 rfl
@@ -530,7 +735,7 @@ theorem processTx_spec (s s' : State) (out : Option CanMsg) (imm : Bool)
           refine finish_spec s s6 s' out6 out imm6 imm (Step.trans h05 hq1) h ?_
           intro msg hm
           right; left
-          rw [← h05.1]
+          rw [← h05.addr]
           exact hq2 msg hm
         · -- sfStandby
           simp only [hst] at h
@@ -543,13 +748,14 @@ theorem processTx_spec (s s' : State) (out : Option CanMsg) (imm : Bool)
             by_cases hlen : m5.data.length ≤ allowed
             · simp only [hlen, if_true, reduceCtorEq, if_false] at h
               refine finish_spec s _ s' (some m5) out false imm
-                (Step.trans h05 (Step.of_eq ?_ (Or.inr ?_))) h ?_
+                (Step.trans h05 (Step.of_eq ?_ (Or.inr ?_) ?_)) h ?_
               · simp
               · simp
+              · exact NoNewTx.trans (fun _ _ h => h) (stopSending_noTx _ _)
               · intro msg hm
                 injection hm with hm
                 subst hm
-                exact h05.2 _ hsb
+                exact h05.1.2 _ hsb
             · simp only [hlen, if_false] at h
               exact finish_spec s s5 s' none out false imm h05 h (by simp)
         · -- ffStandby
@@ -562,12 +768,12 @@ theorem processTx_spec (s s' : State) (out : Option CanMsg) (imm : Bool)
             simp only [hsb] at h
             by_cases hlen : m5.data.length ≤ allowed
             · simp only [hlen, if_true] at h
-              have e2 := h05.2 m5 hsb
+              have e2 := h05.1.2 m5 hsb
               split at h <;>
                 (simp only [Prod.mk.injEq] at h
                  obtain ⟨rfl, rfl, rfl⟩ := h
                  refine ⟨Step.trans h05 (Step.of_eq (by simp [startRxFcTimer])
-                   (Or.inr (by simp [startRxFcTimer]))), ?_⟩
+                   (Or.inr (by simp [startRxFcTimer])) (fun _ _ h => h)), ?_⟩
                  intro msg hm
                  first | (cases hm; done) | (cases hm; exact e2))
             · simp only [hlen, if_false] at h
@@ -580,5 +786,226 @@ theorem processTx_spec (s s' : State) (out : Option CanMsg) (imm : Bool)
     refine ⟨hs1, fun msg hm => Or.inr (Or.inl ?_)⟩
     apply hp3
     rw [hm]
+
+/-! ### G. the whole `process()` call -/
+
+/-- Invariant of a layer whose address is `a` (transmit half `a.tx`): the standby message is a documented
+    frame, and so is every frame handed to `txfn` since the trace was `L0`. -/
+def Good (a : Addr) (L0 : List Ev) (s : State) : Prop :=
+  s.addr = a ∧
+  (∀ msg, s.standby = some msg → EmittedFrameOkAny a.tx msg) ∧
+  (∀ t m, Ev.tx t m ∈ s.log → Ev.tx t m ∈ L0 ∨ EmittedFrameOkAny a.tx m)
+
+theorem Good.step {a : Addr} {L0 : List Ev} {s s' : State} (hg : Good a L0 s) (hs : Step s s') :
+    Good a L0 s' := by
+  obtain ⟨ha, hsb, hl⟩ := hg
+  obtain ⟨⟨ha', hsb'⟩, hl'⟩ := hs
+  refine ⟨by rw [ha', ha], ?_, fun t m hm => hl t m (hl' t m hm)⟩
+  intro msg hm
+  rcases hsb' msg hm with h1 | h1
+  · exact hsb msg h1
+  · rw [ha] at h1; exact h1
+
+theorem checkTimeoutsRx_step (s : State) : Step s s.checkTimeoutsRx := by
+  apply Step.of_eq
+  · unfold checkTimeoutsRx; grind [State.error, emit, stopReceiving]
+  · unfold checkTimeoutsRx; grind [State.error, emit, stopReceiving]
+  · unfold NoNewTx checkTimeoutsRx; grind [State.error, emit, stopReceiving]
+
+theorem processRx_step (s : State) (m : CanMsg) : Step s (s.processRx m).1 := by
+  apply Step.of_eq
+  · unfold processRx startReception
+    grind [deliver, stopReceiving, State.error, emit, requestFc, startRxCfTimer]
+  · left
+    unfold processRx startReception
+    grind [deliver, stopReceiving, State.error, emit, requestFc, startRxCfTimer]
+  · intro t m' h
+    unfold processRx startReception at h
+    grind [deliver, stopReceiving, State.error, emit, requestFc, startRxCfTimer]
+
+theorem rxLoop_step (doTx : Bool) (inbox : List (Nat × CanMsg)) : ∀ (s : State) (st : Stats),
+    Step s (rxLoop doTx s st inbox).1 := by
+  induction inbox with
+  | nil =>
+    intro s st
+    rw [rxLoop]
+    refine Step.trans ?_ (checkTimeoutsRx_step _)
+    exact Step.of_eq rfl (Or.inl rfl) (by intro t m h; simpa [emit] using h)
+  | cons x rest ih =>
+    intro s st
+    obtain ⟨dt, m⟩ := x
+    rw [rxLoop]
+    simp only []
+    have h0 : Step s ((({ s with inbox := rest, now := s.now + dt } : State).emit
+        (.rx (s.now + dt) m)).checkTimeoutsRx) := by
+      refine Step.trans ?_ (checkTimeoutsRx_step _)
+      exact Step.of_eq rfl (Or.inl rfl) (by intro t m h; simpa [emit] using h)
+    split
+    · have h1 := processRx_step ((({ s with inbox := rest, now := s.now + dt } : State).emit
+        (.rx (s.now + dt) m)).checkTimeoutsRx) m
+      split
+      · exact Step.trans h0 h1
+      · split
+        · exact Step.trans h0 h1
+        · exact Step.trans (Step.trans h0 h1) (ih _ _)
+    · split
+      · exact h0
+      · exact Step.trans h0 (ih _ _)
+
+theorem processTx_good {a : Addr} {L0 : List Ev} (s : State) (hg : Good a L0 s) :
+    Good a L0 s.processTx.1 ∧ ∀ msg, s.processTx.2.1 = some msg → EmittedFrameOkAny a.tx msg := by
+  generalize hres : s.processTx = res
+  obtain ⟨s', out, imm⟩ := res
+  obtain ⟨hs, ho⟩ := processTx_spec s s' out imm hres
+  refine ⟨hg.step hs, ?_⟩
+  intro msg hm
+  rcases ho msg hm with h1 | h1
+  · exact hg.2.1 msg h1
+  · rw [hg.1] at h1; exact h1
+
+theorem txLoop_good {a : Addr} {L0 : List Ev} (f : Nat) : ∀ (s : State) (n : Nat), Good a L0 s →
+    Good a L0 (txLoop f s n).1 := by
+  induction f with
+  | zero => intro s n hg; exact hg
+  | succ f ih =>
+    intro s n hg
+    rw [txLoop]
+    obtain ⟨hg1, ho⟩ := processTx_good s hg
+    generalize s.processTx = res at hg1 ho
+    obtain ⟨s1, out, imm⟩ := res
+    simp only [] at hg1 ho ⊢
+    split
+    · exact hg1
+    · have hg2 : Good a L0 (match out with
+          | some m => (s1.emit (.tx s1.now m), n + 1)
+          | none => (s1, n)).1 := by
+        cases out with
+        | none => exact hg1
+        | some m =>
+          refine ⟨hg1.1, hg1.2.1, ?_⟩
+          intro t m' hm
+          simp only [emit, List.mem_cons] at hm
+          rcases hm with hm | hm
+          · injection hm with _ hm
+            subst hm
+            exact Or.inr (ho _ rfl)
+          · exact hg1.2.2 t m' hm
+      split
+      · exact hg2
+      · split
+        · exact ih _ _ hg2
+        · exact hg2
+
+theorem processLoop_good {a : Addr} {L0 : List Ev} (f : Nat) (doRx doTx : Bool) :
+    ∀ (s : State) (st : Stats), Good a L0 s → Good a L0 (processLoop f doRx doTx s st).1 := by
+  induction f with
+  | zero => intro s st hg; exact hg
+  | succ f ih =>
+    intro s st hg
+    rw [processLoop]
+    split
+    rename_i s1 st1 rxRun heq
+    have hg1 : Good a L0 s1 := by
+      split at heq
+      · have := hg.step (rxLoop_step doTx s.inbox s st)
+        rw [heq] at this
+        exact this
+      · injection heq with heq
+        subst heq
+        exact hg
+    clear heq
+    extract_lets s2
+    have hg2 : Good a L0 s2 := hg1.step (Step.of_eq rfl (Or.inl rfl) (fun _ _ h => h))
+    split
+    rename_i s3 st3 run oof heq
+    have hg3 : Good a L0 s3 := by
+      split at heq
+      · have := txLoop_good s2.txFuel s2 st1.sent hg2
+        generalize txLoop s2.txFuel s2 st1.sent = r at heq this
+        obtain ⟨a, b, c, d⟩ := r
+        simp only [Prod.mk.injEq] at heq
+        obtain ⟨rfl, _⟩ := heq
+        exact this
+      · injection heq with heq
+        subst heq
+        exact hg2
+    split
+    · exact hg3
+    · split
+      · exact hg3
+      · split
+        · exact ih _ _ hg3
+        · exact hg3
+
+theorem process_good {a : Addr} {L0 : List Ev} (s : State) (doRx doTx : Bool) (hg : Good a L0 s) :
+    Good a L0 (s.process doRx doTx).1 :=
+  processLoop_good _ _ _ _ _ hg
+
+/-! ### H. all states reachable through the public operations -/
+
+theorem stopSending_step (s : State) (b : Bool) : Step s (s.stopSending b) :=
+  Step.of_eq (stopSending_addr s b) (Or.inr (stopSending_standby s b)) (stopSending_noTx s b)
+
+theorem clearTxQueue_step (q : List Req) : ∀ s : State, Step s (s.clearTxQueue q) := by
+  induction q with
+  | nil => intro s; exact Step.of_eq rfl (Or.inl rfl) (fun _ _ h => h)
+  | cons r rest ih =>
+    intro s
+    rw [clearTxQueue]
+    refine Step.trans ?_ (ih _)
+    exact Step.of_eq rfl (Or.inl rfl) (by intro t m h; simpa [emit] using h)
+
+theorem reset_step (s : State) : Step s s.reset := by
+  unfold reset
+  extract_lets s1 s2 s3
+  have h1 : Step s s1 := Step.of_eq rfl (Or.inl rfl) (fun _ _ h => h)
+  have h2 : Step s1 s2 := clearTxQueue_step _ _
+  have h3 : Step s2 s3 :=
+    Step.trans (stopSending_step _ false) (Step.of_eq rfl (Or.inl rfl) (fun _ _ h => h))
+  exact Step.trans h1 (Step.trans h2 (Step.trans h3 (Step.of_eq rfl (Or.inl rfl) (fun _ _ h => h))))
+
+theorem send_step (s : State) (x : SendArgs) : Step s (s.send x).1 := by
+  apply Step.of_eq
+  · unfold send; grind
+  · left; unfold send; grind
+  · unfold NoNewTx send; grind
+
+/-- States reachable from a freshly constructed layer by the public operations of the model
+    (`send`, a frame arriving on the bus, `process`, `recv`, `stop_sending`, `stop_receiving`,
+    `reset`, the clock, clearing the trace) and by the micro-steps the harness can single-step
+    (`_process_rx`, `_process_tx`, `_check_timeouts_rx`, rate limiter update). -/
+inductive Reach (c : Cfg) (a : Addr) : State → Prop
+  | init : Reach c a (State.init c a)
+  | send {s} (x : SendArgs) : Reach c a s → Reach c a (s.send x).1
+  | frame {s} (dt : Nat) (m : CanMsg) : Reach c a s → Reach c a (s.pushFrame dt m)
+  | process {s} (doRx doTx : Bool) : Reach c a s → Reach c a (s.process doRx doTx).1
+  | recv {s} : Reach c a s → Reach c a s.recv.1
+  | stopSending {s} (b : Bool) : Reach c a s → Reach c a (s.stopSending b)
+  | stopReceiving {s} : Reach c a s → Reach c a s.stopReceiving
+  | reset {s} : Reach c a s → Reach c a s.reset
+  | setNow {s} (t : Nat) : Reach c a s → Reach c a { s with now := t }
+  | clearLog {s} : Reach c a s → Reach c a { s with log := [] }
+  | processRx {s} (m : CanMsg) : Reach c a s → Reach c a (s.processRx m).1
+  | processTx {s} : Reach c a s → Reach c a s.processTx.1
+  | checkTimeoutsRx {s} : Reach c a s → Reach c a s.checkTimeoutsRx
+  | rlUpdate {s} : Reach c a s → Reach c a { s with rl := s.rl.update s.cfg.rlWindowNs s.now }
+
+theorem reach_good (c : Cfg) (a : Addr) (s : State) (hr : Reach c a s) : Good a [] s := by
+  induction hr with
+  | init => exact ⟨rfl, by simp [State.init], by simp [State.init]⟩
+  | send x _ ih => exact ih.step (send_step _ x)
+  | frame dt m _ ih => exact ih.step (Step.of_eq rfl (Or.inl rfl) (fun _ _ h => h))
+  | process doRx doTx _ ih => exact process_good _ _ _ ih
+  | recv _ ih =>
+    refine ih.step (Step.of_eq ?_ (Or.inl ?_) ?_) <;> unfold State.recv <;> split <;> first | rfl | exact fun _ _ h => h
+  | stopSending b _ ih => exact ih.step (stopSending_step _ b)
+  | stopReceiving _ ih => exact ih.step (Step.of_eq rfl (Or.inl rfl) (fun _ _ h => h))
+  | reset _ ih => exact ih.step (reset_step _)
+  | setNow t _ ih => exact ih.step (Step.of_eq rfl (Or.inl rfl) (fun _ _ h => h))
+  | clearLog _ ih => exact ih.step (Step.of_eq rfl (Or.inl rfl) (by intro t m h; simp at h))
+  | processRx m _ ih => exact ih.step (processRx_step _ m)
+  | processTx _ ih => exact (processTx_good _ ih).1
+  | checkTimeoutsRx _ ih => exact ih.step (checkTimeoutsRx_step _)
+  | rlUpdate _ ih => exact ih.step (Step.of_eq rfl (Or.inl rfl) (fun _ _ h => h))
 
 end Isotp.C09
